@@ -43,6 +43,21 @@ type call struct {
 
 func newEnv(nPeers, nCallbacks int) *env {
 	e := &env{w: world.New()}
+	newEnvInto(e, nPeers)
+	e.srv.SetWriteApprovalTimeout(timeout)
+	for c := 0; c < nCallbacks; c++ {
+		c := c
+		_ = e.srv.AddWriteApprovalCallback(func(msg *api.Message) {
+			e.mu.Lock()
+			e.calls = append(e.calls, call{c, msg})
+			e.mu.Unlock()
+		})
+	}
+	return e
+}
+
+// newEnvInto sets up the server feature and the peers (no callbacks).
+func newEnvInto(e *env, nPeers int) *env {
 	le := e.w.AddLocalEntity([]uint{1}, model.EntityTypeTypeCEM, time.Second)
 	e.srv = e.w.AddLocalFeature(le, world.FeatSpec{Type: model.FeatureTypeTypeAlarm, Role: model.RoleTypeServer,
 		Funcs: []world.FuncSpec{{Fn: model.FunctionTypeAlarmListData, Read: true, Write: true}}})
@@ -57,19 +72,6 @@ func newEnv(nPeers, nCallbacks int) *env {
 			{ID: 2, Type: model.FeatureTypeTypeAlarm, Role: model.RoleTypeClient},
 		}}})
 		e.peers = append(e.peers, p)
-	}
-	// only one binding per server feature is possible: peer 1 feature 1 is the bound writer;
-	// writes of other peers are unauthorised and never reach the callbacks (C03), so all pending
-	// writes here come from bound features of ... one feature. To have writers on two peers we
-	// need two server features: add a second Alarm server on another entity.
-	e.srv.SetWriteApprovalTimeout(timeout)
-	for c := 0; c < nCallbacks; c++ {
-		c := c
-		_ = e.srv.AddWriteApprovalCallback(func(msg *api.Message) {
-			e.mu.Lock()
-			e.calls = append(e.calls, call{c, msg})
-			e.mu.Unlock()
-		})
 	}
 	return e
 }
